@@ -222,7 +222,7 @@ def compile_batch(args):
     src = os.path.join(workdir, "b%d.cpp" % bi)
     with open(src, "w") as fp:
         fp.write("\n".join(lines) + "\n")
-    p = subprocess.run(["g++", "-std=c++11", "-fsyntax-only", "-fmax-errors=0", src], capture_output=True, text=True)
+    p = subprocess.run(["g++", "-std=c++11", "-fsyntax-only", "-fmax-errors=0", src], capture_output=True, text=True, errors="replace")
     bad = {}
     if p.returncode != 0:
         for m in re.finditer(r"^%s:(\d+):\d+: error: (.*)$" % re.escape(src), p.stderr, re.M):
